@@ -271,6 +271,7 @@ func OASRuleFields() []*Field {
 	add(oasRuleField("s_const", "string", &Rules{StrConst: Str("fixed")}))
 	add(oasRuleField("s_const_num", "string", &Rules{StrConst: Str("123")}))
 	add(oasRuleField("s_in_empty", "string", &Rules{StrIn: []string{"", "x"}}))
+	add(oasRuleField("s_const_empty", "string", &Rules{StrConst: Str("")}))
 	add(oasRuleField("s_const_bool", "string", &Rules{StrConst: Str("true")}))
 	add(oasRuleField("s_in_mixed", "string", &Rules{StrIn: []string{"null", "1.5", "ok", "-7"}}))
 	add(oasRuleField("s_in_yes", "string", &Rules{StrIn: []string{"yes", "no"}}))
